@@ -6,7 +6,7 @@ from fractions import Fraction
 from harness.props.recorder_common import RecorderProp
 from harness import engine
 
-RATES = [[0, 1], [1, 4], [1, 1], [3, 2]]
+RATES = [[0, 1], [1, 4], [1, 8], [1, 1], [3, 2]]
 
 
 def op_case(skipped, rate, forced, ignore, discard, outcome, draw, order, thread=False):
@@ -42,8 +42,8 @@ def verdict(row):
 
 class C17(RecorderProp):
     ID = 'C17'
-    RULE = ('the full decision table skipped x rate {0, 1/4, 1, 3/2} x forced x ignore-forcing x discard (before / after the force '
-            'request) x outcome {return, raise, interrupt} x draw {below, EQUAL to, above the rate} exhaustively with a scripted '
+    RULE = ('the full decision table skipped x rate {0, 1/4, 1/8, 1, 3/2} x forced x ignore-forcing x discard (before / after the force '
+            'request) x outcome {return, raise, interrupt} x draw {0, rate - 0.004, EQUAL to the rate, rate + 0.0004, 15/16} exhaustively with a scripted '
             'draw source; seeded histories with the recorder\'s OWN Random(seed): the same seed twice, pairs differing only in '
             'operation content and outcome, mixed classes (one an unconfigured subclass of a configured class) with forcing in one run; '
             'storage-level sampling of the S3 cassette with a size-based calculator, ordered / random-order lookups through the same '
@@ -60,6 +60,12 @@ class C17(RecorderProp):
                 continue
             r = Fraction(*rate)
             draws = [[0, 1], [r.numerator, r.denominator] if r <= 1 else [1, 1], [15, 16]]
+            if 0 <= r < 1:
+                # draws a hair above / below the rate: the comparison is on the numbers themselves, not on roundings of them
+                above, below = r + Fraction(4, 10000), r - Fraction(4, 1000)
+                draws.append([above.numerator, above.denominator])
+                if below > 0:
+                    draws.append([below.numerator, below.denominator])
             for d in draws:
                 cases.append(op_case(skipped, rate, forced, ignore, discard, outcome, d, order))
                 if (forced or discard) and outcome == 'ret':
